@@ -35,6 +35,7 @@ def run(facts, R):
     for v in facts.adt("constants::BodyFormat")["variants"]:
         if v["name"] == "Beve":
             beve_code = v["discr"]
+    BEVE_CODE[0] = beve_code
     # ---------------- format-gate-argument: a helper that gates on a `body_format` parameter is handed the request's body
     # format - not its query format, whose JSON-pointer code happens to equal the BEVE body code
     n_gate = 0
@@ -322,9 +323,19 @@ def run(facts, R):
         R.check(ok, "format-guard", rq.path, "Ok iff header.body_format == expected", "require_body_format returns Ok under %s" % fs, st.get("span"), fs[-1][:80] if fs else None)
 
 
+BEVE_CODE = [1]      # discriminant of BodyFormat::Beve, refreshed from the facts in run()
+
+
 def _beve_guard(fs):
     for f in fs:
         t = f["text"]
+        e = f["expr"]
+        if e[0] == "bin" and e[1] in ("Eq", "Ne") and ((e[1] == "Eq" and f["val"] is True) or (e[1] == "Ne" and f["val"] is False)):
+            # `header.body_format == BodyFormat::Beve as u16` spelled as an integer comparison
+            for a_, c_ in ((e[2], e[3]), (e[3], e[2])):
+                from analysis.sym import eval_const as _ec
+                if render(a_).endswith("body_format") and (const_val(c_) == BEVE_CODE[0] or _ec(c_) == BEVE_CODE[0]):
+                    return True
         if f["val"] == "Beve" and "body_format" in t:
             return True
         if f["val"] == "Continue" and "require_body_format" in t and "BodyFormat::Beve" in t:
